@@ -187,17 +187,21 @@ Definition k_deshape (d : nat) (x : arr) : arr :=
 Definition k_fix (d : nat) (x : arr) : arr :=
   let d := dmin d x in Arr (aty x) (firstn d (ash x) ++ 1%nat :: skipn d (ash x)) (adata x).
 
-(* box_depth, monadic/mod.rs:737-754 with Array::into_row_shaped_slices, array.rs:587-597:
+(* box_depth, monadic/mod.rs:737-754 with Array::into_row_shaped_slices, array.rs:587-603:
    data.into_slices(row_len) yields len/row_len slices; when row_len = 0 it yields
-   [self.row_count()] empty slices - the length of the FIRST axis, whatever the depth *)
-Definition k_box (d : nat) (x : arr) : arr :=
+   prod(shape[..rank - row_shape.len()]) empty slices (since commit 3374592).
+   [pre = true]: the code before that commit, which yielded [self.row_count()] empty slices -
+   the length of the FIRST axis, whatever the depth *)
+Definition k_box (pre : bool) (d : nat) (x : arr) : arr :=
   let d := dmin d x in
   match d with O => p_box x | _ =>
   let rs := skipn d (ash x) in
-  let cnt := if Nat.eqb (prodn rs) 0 then nrows (ash x) else (length (adata x) / prodn rs)%nat in
+  let cnt := if Nat.eqb (prodn rs) 0
+             then (if pre then nrows (ash x) else prodn (firstn (length (ash x) - length rs) (ash x)))
+             else (length (adata x) / prodn rs)%nat in
   Arr TBox (firstn d (ash x)) (map (EBox (aty x) rs) (chunk (prodn rs) cnt (adata x))) end.
 
-(** the repaired slicing: one slice per cell at that depth *)
+(** the same written with [blocks]: one slice per cell at that depth *)
 Definition k_box_fixed (d : nat) (x : arr) : arr :=
   let d := dmin d x in
   match d with O => p_box x | _ =>
@@ -270,7 +274,7 @@ Definition run_katom (a : katom) (d : nat) (x : arr) : res arr :=
   | KSort => k_sort d x
   | KDeshape => Ok (k_deshape d x)
   | KFix => Ok (k_fix d x)
-  | KBox => Ok (k_box d x)
+  | KBox => Ok (k_box false d x)
   | KPerv o => p_perv1 o x                       (* pervasive kernels ignore the depth *)
   | KReduce o =>
       match aty x with
@@ -327,8 +331,10 @@ Fixpoint exec_mfn (f : mfn) (x : arr) : res arr :=
 
 Fixpoint rowsk (k : nat) (f : mfn) : mfn := match k with O => f | S k' => FRows (rowsk k' f) end.
 
-(** inventory's compile-time split (compile/modifier.rs:2363-2412): a pervasive SUFFIX of the
-    operand is pulled out of the modifier; when nothing is left, the modifier itself disappears *)
+(** inventory's compile-time split (compile/modifier.rs:2366-2420): a pervasive SUFFIX of the
+    operand is pulled out of the modifier.  When nothing is left, rows and table disappear, but
+    inventory stays with the identity as its function (boxes_results, since commit f64950a);
+    [pre = true]: before that commit inventory disappeared too *)
 Definition is_perv (f : mfn) : bool := match f with FPerv _ => true | _ => false end.
 Fixpoint split_perv (l : list mfn) : list mfn * list mfn :=   (* (kept inside, extracted) of a reversed list *)
   match l with
@@ -336,18 +342,19 @@ Fixpoint split_perv (l : list mfn) : list mfn * list mfn :=   (* (kept inside, e
   | [] => ([], []) end.
 Definition seq_sem (l : list mfn) (x : arr) : res arr :=
   fold_left (fun r f => y <- r ;; sem f y) l (Ok x).
-Definition exec_inventory (f : mfn) (x : arr) : res arr :=
+(** pervasives reach into boxes: G applied to each box's content *)
+Definition in_boxes (G : arr -> res arr) (y : arr) : res arr :=
+  match aty y with
+  | TBox => ds <- mapM (fun e => match e with
+                                 | EBox t s d => z <- G (Arr t s d) ;; Ok (box_elem z)
+                                 | _ => Unspec end) (adata y) ;;
+            Ok (Arr TBox (ash y) ds)
+  | _ => Unspec end.
+Definition exec_inventory (pre : bool) (f : mfn) (x : arr) : res arr :=
   let (kept, extracted) := split_perv (rev (flatten f)) in
-  match kept with
-  | [] => seq_sem extracted x                         (* `return extracted`: no inventory at all *)
-  | _ => y <- inventory_def (seq_sem kept) x ;;
-         (* pervasives reach into boxes: applied to each box's content *)
-         match aty y with
-         | TBox => ds <- mapM (fun e => match e with
-                                        | EBox t s d => z <- seq_sem extracted (Arr t s d) ;; Ok (box_elem z)
-                                        | _ => Unspec end) (adata y) ;;
-                   Ok (Arr TBox (ash y) ds)
-         | _ => Unspec end end.
+  match kept, pre with
+  | [], true => seq_sem extracted x                   (* `return extracted`: no inventory at all *)
+  | _, _ => y <- inventory_def (seq_sem kept) x ;; in_boxes (seq_sem extracted) y end.
 
 (* ================================================================== tie *)
 
